@@ -274,7 +274,7 @@ func (c10) Run(sc *Scenario) *Verdict {
 		for _, k := range sc.OrderKeys {
 			if shared[k] == nil {
 				if sc.Mix == "lib" {
-					shared[k] = spec.VerifNewSimpleCache()
+					shared[k] = LibCache()
 				} else {
 					shared[k] = NewHCache()
 				}
@@ -482,7 +482,7 @@ func (c18) Run(sc *Scenario) *Verdict {
 		}
 		var shared spec.ResolutionCache
 		if sc.Mix == "lib" {
-			shared = spec.VerifNewSimpleCache()
+			shared = LibCache()
 		} else {
 			shared = NewHCache()
 		}
